@@ -151,6 +151,8 @@ def run_cases(plans, out, label):
         out.count('step=%d' % plan['step'])
         out.count('grid=%s' % plan['grid_step'])
         out.count('gap=%s' % bool(r['truth'].get('missing')))
+        out.count('light rain after a storm %s' % ('= storm threshold exactly' if plan.get('light_equal') else '< storm threshold'))
+        out.count('two recessions from the same highest level=%s' % bool(plan.get('tie_top')))
         check_dataset(r, out, corr)
     bad, errs, _ = C.run_case_shards(
         PROP, label, PRE, 'head_mapping * Q * list Q',
@@ -166,10 +168,13 @@ def run(ctx, out):
     C.import_spowtd()
     seed, tier = ctx['seed'], ctx['tier']
     n = 60 if tier == 'quick' else 600
-    plans = [CC.make_plan(C.rng_for(seed, PROP, k), gaps=True, odd_steps=True) for k in range(n)]
+    # every 3rd plan: the light-rain step after each storm is EXACTLY the storm threshold (not a storm step: "heavier
+    # than" is strict); every 4th: two recessions start from exactly the same highest level (tie for the reference)
+    plans = [CC.make_plan(C.rng_for(seed, PROP, k), gaps=True, odd_steps=True,
+                          light_equal=(k % 3 == 0), tie_top=(k % 4 == 1)) for k in range(n)]
     run_cases(plans, out, 'cl')
     out.rule = ('Synthetic records from a planted truth (recession curve piecewise linear on the sampling lattice, constant '
-                'specific yield; 3-7 storms; time steps 10/15/20/30/60 min and 90/100/460/3900 s; 40% with a gap in the water-level record in mid-recession; grid steps 0.5/1/2/2.5 mm) through the five CLI '
+                'specific yield; 3-7 storms; time steps 10/15/20/30/60 min and 90/100/460/3900 s; 40% with a gap in the water-level record in mid-recession; grid steps 0.5/1/2/2.5 mm; 1/3 with the rain step after each storm exactly at the storm threshold; 1/4 with two recessions starting from exactly the same highest level) through the five CLI '
                 'commands; every table row compared with the truth. Non-trivial: >= 3 recession pieces and >= 2 rises '
                 'assembled, >= 3 levels; distinct by event plan.')
     out.samples = [dict(plan_events=plans[0]['events'], step=plans[0]['step'], grid=plans[0]['grid_step'], sigma=plans[0]['sigma'])]
